@@ -28,8 +28,28 @@ theorem numSum_eq' (l : List ℝ) : Num.sum l = l.sum := by
     | cons x xs ih => simp [List.foldl, ih, add_assoc]
   simpa using this 0 l
 
+/-- `x ** 2` (a real power with the exponent `(2 : ℕ)` cast to `ℝ`) is the square -/
+theorem rpow_two' (x : ℝ) : x ^ (((2 : ℕ) : ℝ)) = x ^ 2 := by
+  rw [Real.rpow_natCast]
+
+/-! congruence helpers: the bridging lemmas below compare the regenerated term with the textbook
+    form *up to ring identities under the sums* (so `1 / (e * e)`, `values * weights`, a trailing
+    division instead of a leading factor … still close) -/
+
+theorem sum_zipWith_congr {f g : ℝ → ℝ → ℝ} (h : ∀ a b, f a b = g a b) (as bs : List ℝ) :
+    (List.zipWith f as bs).sum = (List.zipWith g as bs).sum := by
+  rw [show f = g from funext fun a => funext fun b => h a b]
+
+theorem sum_zipWith_swap (f : ℝ → ℝ → ℝ) (as bs : List ℝ) :
+    (List.zipWith f as bs).sum = (List.zipWith (fun b a => f a b) bs as).sum := by
+  rw [List.zipWith_comm]
+
+theorem sum_map_congr {f g : ℝ → ℝ} (h : ∀ a, f a = g a) (as : List ℝ) :
+    (as.map f).sum = (as.map g).sum := by
+  rw [show f = g from funext h]
+
 theorem mean_eq (xs : List ℝ) : mean xs = xs.sum / (xs.length : ℝ) := by
-  simp [mean, numSum_eq']
+  simp [mean, Gen.arrMeanValue, Np.mean, numSum_eq']
 
 theorem devs_eq (xs : List ℝ) : devs xs = xs.map (fun x => x - mean xs) := rfl
 
@@ -54,10 +74,11 @@ theorem var1_eq' (xs : List ℝ) (h : 1 ≤ xs.length) :
     var1 xs = ssq xs / ((xs.length : ℝ) - 1) := by
   rw [var1_eq, Nat.cast_sub h, Nat.cast_one]
 
-theorem std1_eq (xs : List ℝ) : std1 xs = Real.sqrt (var1 xs) := rfl
+theorem std1_eq (xs : List ℝ) : std1 xs = Real.sqrt (var1 xs) := by
+  simp [std1, Gen.arrStd, Gen.arrStdDdof, Np.std, Np.var, var1, ssq, devs, mean, Gen.arrMeanValue]
 
 theorem sem_eq (xs : List ℝ) : sem xs = std1 xs / Real.sqrt (xs.length : ℝ) := by
-  simp [sem]
+  simp [sem, Gen.arrSem, std1]
 
 theorem weights_eq (es : List ℝ) : weights es = es.map fun e => 1 / e ^ 2 := by
   simp [weights, Num.sq, sq]
@@ -65,19 +86,53 @@ theorem weights_eq (es : List ℝ) : weights es = es.map fun e => 1 / e ^ 2 := b
 theorem wmean_eq (xs es : List ℝ) :
     wmean xs es = (List.zipWith (fun e x => 1 / e ^ 2 * x) es xs).sum
         / (es.map fun e => 1 / e ^ 2).sum := by
-  simp only [wmean, numSum_eq', weights_eq, List.zipWith_map_left]
-  rfl
+  simp only [wmean, Gen.arrWmean, numSum_eq', List.zipWith_map_left, List.zipWith_map_right,
+    num_mul, num_div, num_pow, num_ofNat, rpow_two', Nat.cast_one] <;>
+  (congr 1
+   · first
+      | exact sum_zipWith_congr (fun a b => by ring) _ _
+      | (rw [sum_zipWith_swap]; exact sum_zipWith_congr (fun a b => by ring) _ _)
+   · exact sum_map_congr (fun a => by ring) _)
 
 theorem perr_eq (es : List ℝ) : perr es = 1 / Real.sqrt ((es.map fun e => 1 / e ^ 2).sum) := by
-  simp [perr, numSum_eq', weights_eq]
+  simp only [perr, Gen.arrPerr, numSum_eq', num_sqrt, num_div, num_pow, num_mul, num_ofNat,
+    rpow_two', Nat.cast_one, Real.sqrt_div zero_le_one, Real.sqrt_one] <;>
+  first
+    | rfl
+    | (congr 2; exact sum_map_congr (fun a => by ring) _)
 
 theorem cov1_eq (xs ys : List ℝ) :
     cov1 xs ys = 1 / ((xs.length - 1 : ℕ) : ℝ)
         * (List.zipWith (fun a b => a * b) (devs xs) (devs ys)).sum := by
-  simp only [cov1, numSum_eq', num_mul, num_div, num_ofNat, Nat.cast_one]
-  rfl
+  have hz : ∀ (f : ℝ → ℝ → ℝ), (List.zipWith f (devs xs) (devs ys))
+      = List.zipWith (fun a b => f (a - mean xs) (b - mean ys)) xs ys := by
+    intro f; simp [devs, List.zipWith_map]
+  rw [hz]
+  simp only [cov1, Gen.calcCov, mean, Gen.arrMeanValue, numSum_eq', num_mul, num_div, num_sub,
+    num_ofNat, Nat.cast_one]
+  have hs : ∀ (f : ℝ → ℝ → ℝ), (∀ a b, f a b = (a - Np.mean xs) * (b - Np.mean ys)) →
+      (List.zipWith f xs ys).sum
+        = (List.zipWith (fun a b => (a - Np.mean xs) * (b - Np.mean ys)) xs ys).sum :=
+    fun f h => sum_zipWith_congr h _ _
+  rw [hs _ (fun a b => by ring)]
+  cases xs with
+  | nil => simp
+  | cons x xs => simp; try ring
 
 theorem corr_eq (xs ys : List ℝ) : corr xs ys = cov1 xs ys / (std1 xs * std1 ys) := rfl
+
+/-- `ExperimentalValueArray.sum()`: Σx ± sqrt(Σ s²) -/
+theorem sumPair_eq (xs es : List ℝ) :
+    sumPair xs es = (xs.sum, Real.sqrt ((es.map (· ^ 2)).sum)) := by
+  simp only [sumPair, Gen.arrSumValue, Gen.arrSumError, numSum_eq', num_sqrt, num_pow, num_mul,
+    num_ofNat, rpow_two', List.zipWith_self] <;>
+  first
+    | rfl
+    | (congr 2; exact sum_map_congr (fun a => by ring) _)
+
+/-- `ExperimentalValueArray.mean()`: mean ± error on the mean -/
+theorem meanPair_eq (xs : List ℝ) : meanPair xs = (mean xs, sem xs) := by
+  simp [meanPair, mean, sem, Gen.arrMeanError]
 
 /-! ### Part 2: list-sum algebra -/
 
@@ -342,10 +397,34 @@ theorem perr_sq_propagated (es : List ℝ) (h : ∀ e ∈ es, e ≠ 0) :
 /-! ### Part 6: the selector state machine -/
 
 theorem hasZero_eq_false_iff (es : List ℝ) : hasZero es = false ↔ ∀ e ∈ es, e ≠ 0 := by
-  simp [hasZero]
+  simp [hasZero, Gen.arrWmeanNan]
 
 theorem hasZero_eq_true_iff (es : List ℝ) : hasZero es = true ↔ ∃ e ∈ es, e = 0 := by
-  simp [hasZero]
+  simp [hasZero, Gen.arrWmeanNan]
+
+/-! The constructor and the four selectors in the vocabulary of the theorems.  These are the
+    places where the regenerated `Gen.repInit*` / `Gen.use*` are unfolded: a selector that writes
+    another field, reads another statistic or loses its guard no longer proves its equation. -/
+
+theorem init_eq (xs es : List ℝ) : Rep.init xs es = ⟨xs, es, mean xs, sem xs⟩ := by
+  simp [Rep.init, Gen.repInitValue, Gen.repInitError, mean, sem]
+
+theorem step_useStd (r : Rep ℝ) : r.step .useStd = { r with error := std1 r.xs } := by
+  simp [Rep.step, Rep.set, Gen.useStd, std1, Gen.arrStdDdof]
+
+theorem step_useSem (r : Rep ℝ) : r.step .useSem = { r with error := sem r.xs } := by
+  simp [Rep.step, Rep.set, Gen.useSem, sem]
+
+theorem step_useWmean (r : Rep ℝ) :
+    r.step .useWmean = if hasZero r.es then r else { r with value := wmean r.xs r.es } := by
+  by_cases h : Gen.arrWmeanNan r.es = true <;>
+    simp [Rep.step, Rep.set, Gen.useWmean, hasZero, wmean, h]
+
+theorem step_usePerr (r : Rep ℝ) :
+    r.step .usePerr = if hasZero r.es then r else { r with error := perr r.es } := by
+  have h : Gen.arrPerrNan r.es = hasZero r.es := by simp [hasZero, Gen.arrPerrNan, Gen.arrWmeanNan]
+  by_cases h' : hasZero r.es = true <;>
+    simp [Rep.step, Rep.set, Gen.usePerr, h, perr, h']
 
 theorem run_nil (r : Rep ℝ) : r.run [] = r := rfl
 
@@ -356,10 +435,10 @@ theorem run_snoc (r : Rep ℝ) (ss : List Sel) (s : Sel) :
   simp [Rep.run, List.foldl_append]
 
 theorem step_xs (r : Rep ℝ) (s : Sel) : (r.step s).xs = r.xs := by
-  cases s <;> simp only [Rep.step] <;> split <;> rfl
+  cases s <;> rfl
 
 theorem step_es (r : Rep ℝ) (s : Sel) : (r.step s).es = r.es := by
-  cases s <;> simp only [Rep.step] <;> split <;> rfl
+  cases s <;> rfl
 
 theorem run_xs (r : Rep ℝ) (ss : List Sel) : (r.run ss).xs = r.xs := by
   induction ss generalizing r with
